@@ -68,7 +68,7 @@ def _exits(body):
     return bool(body) and isinstance(body[-1], (ast.Continue, ast.Return, ast.Raise, ast.Break))
 
 
-def derefs(fnode, map_pred, iter_facts=None):
+def derefs(fnode, map_pred, iter_facts=None, guard_pred=None):
     """Every `M[K]` load in the function whose map expression satisfies map_pred(normalised source).
     Returns [(node, key_src, map_src, guarded: bool, how)].  `iter_facts(generator)` may supply (key, map) pairs known for the
     elements a comprehension draws from its iterable (a filtering generator helper)."""
@@ -111,7 +111,9 @@ def derefs(fnode, map_pred, iter_facts=None):
             m = norm(node.value, al)
             if map_pred(m) and not isinstance(node.slice, ast.Slice):
                 k = norm(node.slice, al)
-                res.append((node, k, m, (k, m) in facts, "membership test dominates" if (k, m) in facts else "unguarded"))
+                # guard_pred: the membership that licenses the read is in *another* map (`k in reader` before `types[k]`)
+                ok_ = (k, m) in facts if guard_pred is None else any(k_ == k and guard_pred(m_) for k_, m_ in facts)
+                res.append((node, k, m, ok_, "membership test dominates" if ok_ else "unguarded"))
         if isinstance(node, (ast.FunctionDef, ast.AsyncFunctionDef, ast.Lambda)) and node is not fnode:
             block(node.body, set(facts)) if not isinstance(node, ast.Lambda) else visit(node.body, facts)
             return
